@@ -636,31 +636,51 @@ func copyMap(m map[string]int) map[string]int {
 	return out
 }
 
-// BubbleGoroutines returns the stack blocks of all goroutines of the current bubble
-// except the caller.
+// BubbleGoroutines returns the stack blocks of all goroutines of the CURRENT bubble except
+// the caller and the synctest plumbing. Goroutines leaked by earlier bubbles of the same
+// process are not reported.
+var stackBuf = make([]byte, 1<<20)
+
 func BubbleGoroutines() []string {
-	buf := make([]byte, 1<<20)
 	for {
-		n := runtime.Stack(buf, true)
-		if n < len(buf) {
-			buf = buf[:n]
+		n := runtime.Stack(stackBuf, true)
+		if n < len(stackBuf) {
 			break
 		}
-		buf = make([]byte, 2*len(buf))
+		stackBuf = make([]byte, 2*len(stackBuf))
+	}
+	n := runtime.Stack(stackBuf, true)
+	blocks := strings.Split(string(stackBuf[:n]), "\n\n")
+	// the caller's own block names the bubble
+	tag := ""
+	for _, blk := range blocks {
+		if strings.Contains(blk, "kernel.BubbleGoroutines(") {
+			head := blk
+			if nl := strings.IndexByte(blk, '\n'); nl >= 0 {
+				head = blk[:nl]
+			}
+			if i := strings.Index(head, "synctest bubble "); i >= 0 {
+				tag = strings.TrimRight(head[i:], "]:")
+			}
+			break
+		}
+	}
+	if tag == "" {
+		return nil
 	}
 	var out []string
-	for _, blk := range strings.Split(string(buf), "\n\n") {
+	for _, blk := range blocks {
 		nl := strings.IndexByte(blk, '\n')
 		head := blk
 		if nl >= 0 {
 			head = blk[:nl]
 		}
-		if !strings.Contains(head, "synctest bubble") {
+		if !strings.Contains(head, tag+"]") {
 			continue
 		}
-		if strings.Contains(head, "[running") || strings.Contains(blk, "kernel.BubbleGoroutines(") ||
-			strings.Contains(head, "[synctest.Run") || strings.Contains(blk, "testing/synctest.testingSynctestTest(") {
-			continue // the caller itself, and the goroutine that waits for the bubble
+		if strings.Contains(blk, "kernel.BubbleGoroutines(") || strings.Contains(head, "[synctest.Run") ||
+			strings.Contains(blk, "testing/synctest.testingSynctestTest(") {
+			continue // the caller itself, and the goroutines that wait for the bubble
 		}
 		out = append(out, blk)
 	}
